@@ -269,7 +269,12 @@ def tierwise_cases(draw):
     spec = draw(gen.textgrid(style=style, max_tiers=4, label=gen.AB, clean=draw(st.integers(0, 4)) > 0))
     ts = sorted({t for tr in spec["tiers"] for e in tr["entries"] for t in e[:-1]} | {spec["minT"], spec["maxT"]})
     mids = [(x + y) / 2 for x, y in zip(ts, ts[1:])]
-    pick = st.sampled_from(ts + mids)
+    near = []
+    if style != "grid":
+        pts_ = sorted({e[0] for tr in spec["tiers"] if tr["type"] == "point" for e in tr["entries"]})[:6]
+        near = [math.nextafter(t, math.inf) for t in pts_] + [math.nextafter(t, -math.inf) for t in pts_ if t > 0]
+        near = [x for x in near if spec["minT"] <= x <= spec["maxT"]]  # (windows and regions stay inside the textgrid's span)
+    pick = st.sampled_from(ts + mids + near)  # near: a window edge one unit in the last place beside a point
     kind = draw(st.sampled_from(["crop", "erase", "insert", "edit", "crop", "insert", "erase"]))
     op = {"kind": kind}
     if kind in ("crop", "erase"):
